@@ -83,9 +83,14 @@ func (w *world) str(e ast.Expr, depth int) (string, bool) {
 		return w.str(x.X, depth+1)
 	case *ast.CallExpr: // conversion: []byte("..."), conditionType("..."), string(x)
 		if len(x.Args) == 1 {
-			switch x.Fun.(type) {
-			case *ast.ArrayType, *ast.Ident:
+			switch f := x.Fun.(type) {
+			case *ast.ArrayType:
 				return w.str(x.Args[0], depth+1)
+			case *ast.Ident:
+				// T(x) with T a type; a call f(x) of a package function is not a conversion
+				if _, isFunc := w.funcs[f.Name]; !isFunc {
+					return w.str(x.Args[0], depth+1)
+				}
 			}
 		}
 	case *ast.BinaryExpr:
